@@ -217,6 +217,15 @@ class C12(E1Check):
                     if not (isinstance(e, HE) or (isinstance(e, BaseExceptionGroup) and e.subgroup(HE) is not None)):
                         log("noise-other", t, path, who, type(e).__name__)
                 check(t, stack, f"inside {path} after a service task failed to start on the {who} context")
+            # entering the context of the running block once more is refused - every time - and changes nothing
+            for attempt in (1, 2):
+                try:
+                    await ctx.__aenter__()
+                    fails.append(("current", f"task {t}: re-entering the open context {path} (attempt {attempt}) was accepted"))
+                    await ctx.__aexit__(None, None, None)
+                except RuntimeError:
+                    pass
+                check(t, stack, f"inside {path} after re-entry attempt {attempt} was refused")
             n = Context()
             if n.parent is not ctx:
                 fails.append(("parent", f"task {t}: Context() created inside {path} after failed lookups has parent {_d(n.parent)}, expected {_d(ctx)}"))
@@ -292,6 +301,15 @@ class C12(E1Check):
                 import weakref
 
                 bref = weakref.ref(bottom)
+
+                def chain_names(c: Any) -> list:
+                    out = []
+                    while c is not None:
+                        out.append(names.get(id(c), "?"))
+                        c = c.parent
+                    return out
+
+                chain0 = chain_names(bottom)
                 stack[0] = None
                 del bottom, validate
                 await all_left.wait()
@@ -300,6 +318,8 @@ class C12(E1Check):
                 if c0 is None or bref() is not c0:
                     fails.append(("current", f"task {t} after the contexts it was spawned in have been left (and nothing else refers to them): "
                                              f"current_context() is {_d(c0)}, it inherited {names.get(id(bref()), 'a context that is gone') if bref() else 'a context that has been freed'}"))
+                if c0 is not None and chain_names(c0) != chain0:
+                    fails.append(("parent", f"task {t}: the chain of parents of its inherited context was {chain0} and is {chain_names(c0)} after the blocks were left"))
                 stack[0] = c0
                 bottom = c0
                 log("chk", t, "outlive", c0 is not None)
